@@ -575,6 +575,17 @@ func rejectGuards(fn *ssa.Function) []guard {
 		switch x := b.Instrs[len(b.Instrs)-1].(type) {
 		case *ssa.If:
 			r0, r1 := blockRejectsFrom(b, b.Succs[0]) || noAccept(b.Succs[0]), blockRejectsFrom(b, b.Succs[1]) || noAccept(b.Succs[1])
+			if r0 && r1 {
+				// `if err != nil { return err }` directly followed by `return n, err2` with err2 the untested error of a last
+				// call: the continuation hands on whatever that call answered, it does not refuse by itself
+				if _, idx, isErrTest := errTest(x); isErrTest && passesOnCallError(b, b.Succs[1-idx]) {
+					if idx == 0 {
+						r1 = false
+					} else {
+						r0 = false
+					}
+				}
+			}
 			if r0 == r1 {
 				continue
 			}
@@ -658,6 +669,17 @@ func rejectGuards(fn *ssa.Function) []guard {
 						last = mi.X
 					}
 				}
+			}
+			if isErrorType(last.Type()) {
+				// `return n, err` with err the untested error of a call made in this block: the same decision as
+				// `if err != nil { return n, err }; return n, nil`
+				if call := untestedCallError(last); call != nil && !isLocalHelper(fn, call.Call.StaticCallee()) {
+					dec := deciderOf(stripIface(lastStoreInBlock(last))) + " != nil"
+					if !strings.HasPrefix(dec, "round.Helper.BroadcastMessage") && !strings.HasPrefix(dec, "round.Helper.SendMessage") {
+						out = append(out, guard{fn: fn, ret: x, decider: dec, fields: guardFields(fn, stripIface(lastStoreInBlock(last))), cond: stripIface(lastStoreInBlock(last)), pos: call.Pos()})
+					}
+				}
+				continue
 			}
 			if b, ok := last.Type().Underlying().(*types.Basic); ok && b.Kind() == types.Bool {
 				if _, isPhi := last.(*ssa.Phi); isPhi {
@@ -1068,6 +1090,9 @@ func liftFrom(fn *ssa.Function, call *ssa.Call, g *ssa.Function, onParam bool, c
 					}
 				}
 				dec = deciderOf(S.cond)
+				if isErrorType(S.cond.Type()) {
+					dec += " != nil" // the handed-on error of a last call
+				}
 				deciderBind = prev
 			}
 			lg := guard{fn: fn, iff: Giff, ret: Gret, decider: dec, fields: fields, cond: S.cond, pos: S.pos, passBlk: GpassBlk, inner: S.iff}
@@ -1571,4 +1596,63 @@ func guardFields(fn *ssa.Function, cond ssa.Value) []string {
 		}
 	}
 	return out
+}
+
+// untestedCallError: v (the error a return hands back) is the error result of a call whose only use as a value is that
+// return (never compared with nil).
+func untestedCallError(v ssa.Value) *ssa.Call { return untestedCallErrorBut(v, nil) }
+
+func untestedCallErrorBut(v ssa.Value, allowed ssa.Value) *ssa.Call {
+	v = stripIface(lastStoreInBlock(v))
+	var call *ssa.Call
+	switch x := v.(type) {
+	case *ssa.Call:
+		call = x
+	case *ssa.Extract:
+		call, _ = x.Tuple.(*ssa.Call)
+	}
+	if call == nil || v.Referrers() == nil || freshError(v) {
+		return nil // (an error constructor is a fresh error, not the verdict of a check)
+	}
+	for _, ref := range *v.Referrers() {
+		switch ref.(type) {
+		case *ssa.Return, *ssa.Store, *ssa.DebugRef:
+		default:
+			if rv, isV := ref.(ssa.Value); isV && allowed != nil && rv == allowed {
+				continue
+			}
+			return nil
+		}
+	}
+	return call
+}
+
+// passesOnCallError: following unconditional jumps from pred->b, the block returns the untested error of a call.
+func passesOnCallError(pred, b *ssa.BasicBlock) bool {
+	var cond ssa.Value
+	if iff, ok := pred.Instrs[len(pred.Instrs)-1].(*ssa.If); ok {
+		cond = iff.Cond
+	}
+	for i := 0; i < 4 && b != nil && len(b.Instrs) > 0; i++ {
+		switch x := b.Instrs[len(b.Instrs)-1].(type) {
+		case *ssa.Return:
+			if len(x.Results) == 0 {
+				return false
+			}
+			last := x.Results[len(x.Results)-1]
+			if ph, ok := last.(*ssa.Phi); ok && ph.Block() == b {
+				for k, p := range b.Preds {
+					if p == pred {
+						last = ph.Edges[k]
+					}
+				}
+			}
+			return isErrorType(last.Type()) && untestedCallErrorBut(last, cond) != nil
+		case *ssa.Jump:
+			pred, b = b, b.Succs[0]
+		default:
+			return false
+		}
+	}
+	return false
 }
